@@ -297,7 +297,9 @@ impl LevelManifest {
 			.max()
 			.unwrap_or(0);
 
-		if computed_max_seq != last_sequence {
+		// Compaction may drop the newest entries (e.g. a tombstone at the last level), so
+		// the tables can hold less than the recorded high-water mark, but never more.
+		if computed_max_seq > last_sequence {
 			return Err(Error::LoadManifestFail(format!(
 				"Manifest last_sequence mismatch: stored={}, computed from tables={}",
 				last_sequence, computed_max_seq
@@ -316,7 +318,7 @@ impl LevelManifest {
 		})
 	}
 
-	fn validate_table_sequence_numbers(level_idx: u8, tables: &[Arc<Table>]) -> Result<()> {
+	fn validate_table_sequence_numbers(_level_idx: u8, tables: &[Arc<Table>]) -> Result<()> {
 		// Basic sanity check for all tables
 		for table in tables {
 			// Ensure both sequence numbers exist (they should always be set together)
@@ -346,27 +348,8 @@ impl LevelManifest {
 			}
 		}
 
-		// If we have multiple tables, check sequence continuity across all tables
-		if tables.len() > 1 {
-			for i in 0..tables.len() - 1 {
-				let current = &tables[i];
-				let next = &tables[i + 1];
-
-				// Check if sequence numbers maintain continuity
-				if let (Some(next_smallest), Some(current_largest)) =
-					(next.meta.smallest_seq_num, current.meta.largest_seq_num)
-				{
-					if next_smallest <= current_largest {
-						return Err(Error::LoadManifestFail(format!(
-							"Level {} tables have overlapping sequence numbers: Table {} ({:?}-{:?}) and Table {} ({:?}-{:?})",
-							level_idx,
-							current.id, current.meta.smallest_seq_num, current.meta.largest_seq_num,
-							next.id, next.meta.smallest_seq_num, next.meta.largest_seq_num
-						)));
-					}
-				}
-			}
-		}
+		// No ordering of sequence ranges is required between the tables of a level: tables
+		// of level >= 1 are sorted by key, and key order is unrelated to write order.
 
 		Ok(())
 	}
